@@ -102,7 +102,7 @@ def run_optimiser(case):
         for a, v in got.items():
             if abs(v - scale / n) > 1e-12 * abs(scale):
                 raise Violation('equal weight of %s is %r, scale/N = %r/%d = %r' % (a, v, scale, n, scale / n))
-        if abs(math.fsum(got.values()) - scale) > 1e-12 * abs(scale) * n:
+        if abs(math.fsum(got.values()) - scale) > 1e-12 * abs(scale) * n + (0 if scale else 1e-300):
             raise Violation('equal weights sum to %r, scale is %r' % (math.fsum(got.values()), scale))
         cls.append('n_%d' % min(n, 4))
         if prev is not None:
@@ -128,7 +128,7 @@ def optimisers(draw):
         else:
             other = draw(st.lists(st.sampled_from(kit.ASSET_POOL), min_size=1, max_size=8, unique=True))
         more.append({a: draw(_wval) for a in other})
-    return {'weights': w, 'more': more, 'scale': draw(st.one_of(st.sampled_from(['default', 1.0, 2.0, 0.5]),
+    return {'weights': w, 'more': more, 'scale': draw(st.one_of(st.sampled_from(['default', 1.0, 2.0, 0.5, 0.0, 0]),
                                                                   st.floats(0.01, 10).map(lambda x: float('%.4g' % x))))}
 
 
@@ -208,8 +208,55 @@ def sessions(draw):
     return {'cfg': cfg, 'market': mk, 'labels': sorted(set(lab)), 'rerun_shared': draw(st.booleans())}
 
 
+
+def run_static_pcm(case):
+    """A static universe yields exactly its configured list - also after the construction model has used it while
+    the portfolio holds assets outside the universe."""
+    q = load()
+    pool = kit.ASSET_POOL
+    configured = [pool[i] for i in case['universe']]
+    uni = q.StaticUniverse(list(configured))
+    dh = kit.StubDH({a: (p, p) for a, p in zip(pool, case['prices'])})
+    b, _ = kit.funded_broker(1e6, dh=dh, holdings=[(pool[i], n) for i, n in case['holdings']])
+    sizer = (q.DollarWeightedCashBufferedOrderSizer(b, 'p', dh, cash_buffer_percentage=0.05) if case['long_only']
+             else q.LongShortLeveragedOrderSizer(b, 'p', dh, gross_leverage=1.0))
+    alpha = q.SingleSignalAlphaModel(uni, signal=1.0)
+    pcm = q.PortfolioConstructionModel(b, 'p', uni, sizer, q.FixedWeightPortfolioOptimiser(data_handler=dh),
+                                       alpha_model=alpha, data_handler=dh)
+    t = kit.T_CLOSE
+    for k in range(case['rebalances']):
+        b.update(t)
+        orders = pcm(t, stats={'target_allocations': []})
+        got = list(uni.get_assets(t))
+        if got != configured:
+            raise Violation('static universe yields %s after %d rebalance(s), configured %s (holdings %s)' % (
+                got, k + 1, configured, [pool[i] for i, _ in case['holdings']]))
+        w = alpha(t)
+        if list(w) != configured:
+            raise Violation('universe-driven alpha model weights %s, configured universe %s' % (list(w), configured))
+        for o in orders:
+            b.submit_order('p', o)
+        t = t + pd.Timedelta(days=1)
+        if t.weekday() > 4:
+            t = t + pd.Timedelta(days=7 - t.weekday())
+        b.update(t.normalize() + pd.Timedelta(hours=14, minutes=30))
+    outside = any(pool[i] not in configured for i, _ in case['holdings'])
+    return Result(['held_outside_universe'] if outside else [], nontrivial=outside and case['rebalances'] >= 2)
+
+
+@st.composite
+def static_pcm(draw):
+    n = len(kit.ASSET_POOL)
+    return {'universe': draw(st.lists(st.integers(0, n - 1), min_size=1, max_size=4, unique=True)),
+            'holdings': [[i, draw(st.sampled_from([10, 100, 1000]))] for i in
+                         draw(st.lists(st.integers(0, n - 1), min_size=0, max_size=3, unique=True))],
+            'prices': [draw(st.floats(1, 300).map(lambda x: float('%.5g' % x))) for _ in range(n)],
+            'long_only': draw(st.booleans()), 'rebalances': draw(st.integers(1, 3))}
+
+
 PARTS = [
     Part('universes', 'hyp', run_universe, strategy=universes(), quick=5000, thorough=320000, quick_shards=4),
     Part('optimisers', 'hyp', run_optimiser, strategy=optimisers(), quick=3000, thorough=160000, quick_shards=4),
     Part('sessions', 'hyp', run_sess, strategy=sessions(), quick=800, thorough=48000, quick_shards=8),
+    Part('static', 'hyp', run_static_pcm, strategy=static_pcm(), quick=600, thorough=48000, quick_shards=4),
 ]
